@@ -44,16 +44,19 @@ Persist(K, S) == [mode |-> "persist", ks |-> {}, kinds |-> K, nodes |-> S]
 
 \* mode "act" (re-entrant hooks, MC_OpsRe): the hook invocation with ordinal ak does not raise but itself makes the public
 \* call `am.parent = av` -- hooks are ordinary methods and may use the library (docs: "replace" or "evict" semantics).
-Acting(k, m, w) == [mode |-> "act", ks |-> {}, kinds |-> {}, nodes |-> {}, ak |-> k, am |-> m, av |-> w]
+\* akind "sp": `am.parent = av`; akind "dc": `del am.children` (av = Nil).  ar: after its call the hook raises (a veto by a hook
+\* that has already changed something).
+Acting(k, m, w, kind, raises) ==
+  [mode |-> "act", ks |-> {}, kinds |-> {}, nodes |-> {}, ak |-> k, am |-> m, av |-> w, akind |-> kind, ar |-> raises]
 
 Raises(fp, kind, n, hc) ==
   CASE fp.mode = "none"    -> FALSE
     [] fp.mode = "once"    -> hc \in fp.ks
     [] fp.mode = "persist" -> kind \in fp.kinds /\ n \in fp.nodes
-    [] fp.mode = "act"     -> FALSE
+    [] fp.mode = "act"     -> fp.ar /\ hc = fp.ak
 
-NestedFrame(n, v) ==     \* = FrSP(n, v), defined below
-  [pc |-> "sp_entry", n |-> n, v |-> v, old |-> Nil, xs |-> <<>>, olds |-> <<>>, i |-> 0,
+NestedFrame(kind, n, v) ==     \* = FrSP(n, v) / FrDC(n), defined below
+  [pc |-> IF kind = "sp" THEN "sp_entry" ELSE "dc_entry", n |-> n, v |-> v, old |-> Nil, xs |-> <<>>, olds |-> <<>>, i |-> 0,
    saved |-> Nil, savedsrc |-> 0, bad |-> FALSE]
 NoNest == [lo |-> 0, hi |-> 0, exc |-> Nil, par |-> <<>>, ch |-> <<>>]
 RECURSIVE Run(_)
@@ -71,10 +74,11 @@ Hook(c, kind, n, arg) ==
   LET hc == c.hc + 1
       r  == Raises(c.fp, kind, n, hc)
       ev == [h |-> kind, n |-> n, a |-> arg, par |-> c.par, ch |-> c.ch, r |-> r]
-      c1 == [c EXCEPT !.hc = hc, !.log = Append(@, ev),
-                      !.exc = IF r THEN "HookFault" ELSE @,
-                      !.src = IF r THEN hc ELSE @]
-  IN IF c.fp.mode = "act" /\ c.fp.ak = hc THEN Nested(c1, NestedFrame(c.fp.am, c.fp.av)) ELSE c1
+      acts == c.fp.mode = "act" /\ c.fp.ak = hc
+      c0 == [c EXCEPT !.hc = hc, !.log = Append(@, ev)]
+      c1 == IF acts THEN Nested(c0, NestedFrame(c.fp.akind, c.fp.am, c.fp.av)) ELSE c0
+  IN \* (an exception of the nested call propagates; otherwise the hook raises if the plan says so)
+     IF r /\ c1.exc = Nil THEN [c1 EXCEPT !.exc = "HookFault", !.src = hc] ELSE c1
 
 Mark(c, m) == [c EXCEPT !.marks = @ \cup {m}]
 Top(c) == c.stk[Len(c.stk)]
